@@ -230,7 +230,9 @@ def c10(tier):
     jobs.append(codes_job(3, k, True, "separate20"))
     jobs.append(codes_job(1, k, True, "separate20"))
     # one row of the table per call from any state: command handler loops and event handler loops (step jobs)
-    jobs += step_jobs("C10", tier, pairs=[(13, 0), (14, 0), (15, 0), (16, 0), (0, 3), (0, 4), (14, 4), (16, 3), (13, 6)])
+    jobs += step_jobs("C10", tier, pairs=[(13, 0), (14, 0), (15, 0), (16, 0), (0, 3), (0, 4), (14, 4), (16, 3), (13, 6),
+                                                 # where formatting (re)starts: COMMAND_FOUND, the after-flush re-format states of both machines, the idle event FSM popping an event
+                                                 (6, 0), (22, 0), (23, 0), (0, 9), (0, 10), (0, 0)])
     jobs += [list_job("C10", 20, 22, "m2.cap10to11")]
     return with_prop("C10", jobs)
 
@@ -469,9 +471,9 @@ def c19(tier):
         jobs.append(j3)
         jobs.append(list_job("C19", 12, 19, "m3.cap6to9", m=3))
     for nv in ((1, 2) if tier == "quick" else (1, 2, 3)):
-        jobs.append(Job("k_test.nv%d" % nv, "k_test.c", {"NV": nv, "CAPMAX": 64}, unwind=100, unwindset={"strlen.0": 12, "strcpy.0": 10, "strncpy.0": 66},
+        jobs.append(Job("k_test.nv%d" % nv, "k_test.c", {"NV": nv, "CAPMAX": 64}, unwind=100, unwindset={"strlen.0": 42, "strcpy.0": 42, "strncpy.0": 66},
                         timeout=1800, samples=100000, solver="kissat",
-                        required_witness=["end-of-scenario", "fits-exactly", "one-byte-short", "unsupported-width"]))
+                        required_witness=["end-of-scenario", "fits-exactly", "one-byte-short", "unsupported-width", "name-of-20-characters-fits"]))
     return with_prop("C19", jobs)
 
 
